@@ -256,6 +256,7 @@ class VerifPlain(_go.GridObject):
 
 
 CUSTOM = {'VerifCrate': VerifCrate, 'VerifGem': VerifGem, 'VerifPlain': VerifPlain}
+_FRESH = 0
 
 
 def enum_custom(tier, shard, nshards):
@@ -281,16 +282,23 @@ def oracle_custom(case, ctx):
     from gym_gridverse.state import State
     from gym_gridverse.observation import Observation
     names = (case['builtin'] + case['custom']) if case['parents_first'] else (case['custom'] + case['builtin'])
-    types = [CUSTOM.get(n) or getattr(_go, n) for n in names]
+    # fresh user-defined classes for every case (a class-level cache set while handling an earlier case must not immunise this one)
+    global _FRESH
+    _FRESH += 1
+    fresh = {n: type(f'{n}{_FRESH}', (CUSTOM[n],), {}) for n in case['custom']}
+    VerifGem_ = tuple(v for k, v in fresh.items() if k == 'VerifGem')
+    types = [fresh.get(n) or getattr(_go, n) for n in names]
     colors = [_go.Color[c] for c in case['colors']]
 
     def instances(t):
-        if t in (_go.Key, VerifGem, _go.Exit):
+        if t in (_go.Key, VerifGem, _go.Exit) or t in VerifGem_:
             return [t(c) for c in colors]
         if t is _go.Door:
             return [t(st_, c) for st_ in _go.Door.Status for c in colors]
         return [t()]
 
+    for t in types:
+        t.type_index()   # evaluated in declaration order (parents first / custom first): a per-class cache must not leak to subclasses
     objs_ = [o for t in types for o in instances(t)]
     registry_index = {t: _go.grid_object_registry.index(t) for t in types}
     if len(set(registry_index.values())) != len(types):
@@ -304,7 +312,7 @@ def oracle_custom(case, ctx):
             enc = {}
             for o in objs_:
                 shape = (2, 2) if kind == 'state' else (1, 3)
-                grid = Grid([[type(objs_[0])() if type(objs_[0]) not in (_go.Key, VerifGem, _go.Exit, _go.Door) else instances(type(objs_[0]))[0] for _ in range(shape[1])] for _ in range(shape[0])])
+                grid = Grid([[type(objs_[0])() if type(objs_[0]) not in (_go.Key, VerifGem, _go.Exit, _go.Door) + VerifGem_ else instances(type(objs_[0]))[0] for _ in range(shape[1])] for _ in range(shape[0])])
                 grid[shape[0] - 1, shape[1] - 1] = o
                 member = (State if kind == 'state' else Observation)(grid, Agent(Position(0, 0), Orientation.F, None))
                 a = rep.convert(member)
